@@ -254,7 +254,8 @@ def main():
     seed = int(os.environ.get("VERIF_SEED", "0"))
     rnd = random.Random(seed * 6700417 + int(prop[1:]))
     cases, descr, fails = [], [], []
-    surf_cases = []
+    surf_cases, surf_descr = [], []
+    cli_cases, cli_descr = [], []
     dist = {"accepted_renderings": 0, "valid": 0, "corrupted": 0, "soup": 0, "multiword": 0, "accepted": 0, "rejected": 0, "crlf": 0, "lines_max": 0, "history_parses": 0,
             "value_kinds": {}, "unprintable": 0, "error_line_checks": 0, "cli_runs": 0}
     seen, nontrivial, evaluations = set(), 0, 0
@@ -307,9 +308,19 @@ def main():
         jobs.append(("corrupted", rnd.choice(["\n", "\n\n", "\r\n"]).join(before + [bad] + after) + "\n", None))
         dist["mixed_lists"] = dist.get("mixed_lists", 0) + 1
     rnd.shuffle(jobs)
+    def state_of(psr):
+        """what the Parser object holds between two calls of parse()"""
+        return (int(getattr(psr.lexer, "lineno", 1)), bool(getattr(psr, "eems_v2", False)), bool(getattr(psr, "errors", [])))
+
+    obj_cases, obj_descr = [], []
     for kind, src, exp in jobs:
         use_shared = rnd.random() < 0.5
-        o = observe(shared if use_shared else Parser(), src)
+        psr = shared if use_shared else Parser()
+        pre = state_of(psr)
+        o = observe(psr, src)
+        post = state_of(psr)
+        if pre != (1, False, False):
+            dist["parses_from_a_used_object_state"] = dist.get("parses_from_a_used_object_state", 0) + 1
         # what is delivered depends on the text alone: not on which Parser object parses it, nor on what that object parsed before
         o_first = observe(first, src)
         if o_first != o:
@@ -366,11 +377,17 @@ def main():
             if sc is not None:
                 flo = float_oracle(src)
                 surf_cases.append("(%s, %s)" % (sc, clist(["(%s, %s)" % (ctext(k), ctext(v)) for k, v in sorted(flo.items())])))
+                surf_descr.append(src)
         # Coq case
         try:
             fl = float_oracle(src)
             cases.append("(%s, %s, %s)" % (ctext(src), clist(["(%s, %s)" % (ctext(k), ctext(v)) for k, v in sorted(fl.items())]), c_observed(o)))
             descr.append(replay)
+            if prop == "C11" and o[0] in ("ok", "syntax"):
+                st = lambda t: "(%d%%N, %s, %s)" % (t[0], "true" if t[1] else "false", "true" if t[2] else "false")
+                obj_cases.append("(%s, %s, %s, %s, %s)" % (st(pre), ctext(src), clist(["(%s, %s)" % (ctext(k), ctext(v)) for k, v in sorted(fl.items())]), c_observed(o), st(post)))
+                obj_descr.append(dict(replay, object_state_before={"lexer.lineno": pre[0], "eems_v2": pre[1], "errors_pending": pre[2]},
+                                      object_state_after={"lexer.lineno": post[0], "eems_v2": post[1], "errors_pending": post[2]}))
         except ValueError:
             dist["unprintable"] += 1
     # ---------- C11: lines carried by load / validation errors and marked by the CLI ----------
@@ -470,6 +487,7 @@ def main():
                 fails.append({"sig": "C11:error-not-raised", "what": "fault %s not reported" % fault, "replay": replay})
                 continue
             except MPilotError as ex:
+                got_line = getattr(ex, "lineno", None)
                 if type(ex).__name__ != cls:
                     fails.append({"sig": "C11:error-class", "what": "fault %s reported as %s" % (fault, type(ex).__name__), "replay": replay})
                     continue
@@ -484,13 +502,19 @@ def main():
             except SyntaxError:
                 continue
             # the line the command-line tool marks
-            if i % 3 == 0:
+            if i % 2 == 0:
                 mp = os.path.join(wd, "m.mpt")
                 with open(mp, "w", newline="") as fh:
                     fh.write(src)
                 pr = subprocess.run([sys.executable, "-c", "import sys; sys.argv=['mpilot','eems-csv',%r]; from mpilot.cli.mpilot import main; main()" % mp],
                                     cwd=wd, stdout=subprocess.PIPE, stderr=subprocess.PIPE, universal_newlines=True)
                 dist["cli_runs"] += 1
+                if got_line is not None:
+                    try:
+                        cli_cases.append("(%s, %d%%nat, %s)" % (ctext(src), got_line, ctext(pr.stderr)))
+                        cli_descr.append(dict(replay, error_line=got_line, stderr=pr.stderr[-400:]))
+                    except ValueError:
+                        pass
                 marked = [ln for ln in pr.stderr.split("\n") if ln.startswith("--> ")]
                 expect_text = src.replace("\r\n", "\n").split("\n")[want - 1]
                 if allowed is not None:
@@ -518,8 +542,30 @@ def main():
                      "Definition cases : list (list xcmd * list text * text * text * list (text * text)) := [\n  %s\n].\n"
                      "Eval vm_compute in (failing instance_of_layout_theorem cases).\n" % ";\n  ".join(surf_cases[i:i + CH]))
         surf_files.append({"path": path, "first": i, "count": len(surf_cases[i:i + CH])})
+    cli_files = []
+    for i in range(0, len(cli_cases), CH):
+        path = os.path.join(os.getcwd(), "Cases_%scli_%03d.v" % (prop, i // CH))
+        with open(path, "w") as fh:
+            fh.write("From Coq Require Import NArith ZArith List Bool.\nFrom MP Require Import Base.Check Model.Lexer Model.Cli Corr.CheckCli.\n"
+                     "Import ListNotations.\nOpen Scope N_scope.\n"
+                     "Definition cases : list (text * nat * text) := [\n  %s\n].\n"
+                     "Eval vm_compute in (failing check_cli cases).\n" % ";\n  ".join(cli_cases[i:i + CH]))
+        cli_files.append({"path": path, "first": i, "count": len(cli_cases[i:i + CH])})
+    obj_files = []
+    for i in range(0, len(obj_cases), CH):
+        path = os.path.join(os.getcwd(), "Cases_%sobj_%03d.v" % (prop, i // CH))
+        with open(path, "w") as fh:
+            fh.write("From Coq Require Import NArith ZArith QArith List Bool.\nFrom MP Require Import Base.Check Model.Lexer Model.Parser Corr.CheckParser Corr.CheckParserObj.\n"
+                     "Import ListNotations.\nOpen Scope N_scope.\n"
+                     "Definition cases : list ((N * bool * bool) * text * list (text * text) * observed * (N * bool * bool)) := [\n  %s\n].\n"
+                     "Eval vm_compute in (failing check_pobj cases).\n" % ";\n  ".join(obj_cases[i:i + CH]))
+        obj_files.append({"path": path, "first": i, "count": len(obj_cases[i:i + CH])})
+    import surface_lib
+    if surface_lib.REASONS:
+        dist["outside_the_surface_family_because"] = dict(sorted(surface_lib.REASONS.items(), key=lambda kv: -kv[1])[:12])
+        dist["outside_the_surface_family_samples"] = {k: v[-260:] for k, v in list(surface_lib.SAMPLES.items())[:6]}
     mine = [f for f in fails if f["sig"].startswith(prop + ":")]
-    json.dump({"surf_files": surf_files, "files": files, "descr": descr, "oracle_failures": mine, "other_property_failures": sorted(set(f["sig"] for f in fails if not f["sig"].startswith(prop + ":")))[:20],
+    json.dump({"cli_files": cli_files, "cli_descr": cli_descr, "obj_files": obj_files, "obj_descr": obj_descr, "surf_files": surf_files, "surf_descr": surf_descr, "files": files, "descr": descr, "oracle_failures": mine, "other_property_failures": sorted(set(f["sig"] for f in fails if not f["sig"].startswith(prop + ":")))[:20],
                "distribution": dist, "evaluations": evaluations, "distinct_nontrivial": nontrivial, "samples": descr[:1] + descr[-2:],
                "tree": mpilot.__file__}, open(out, "w"), default=str)
 
